@@ -133,21 +133,13 @@ class MsgPackSerializer : public VariantDataVisitor<size_t> {
       writeByte(0xD1);
       writeInteger(int16_t(value));
     }
-#if ARDUINOJSON_USE_LONG_LONG
-    else if (value >= -0x80000000LL)
-#else
-    else
-#endif
-    {
+    else if (sizeof(value) <= 4 || value >= -0x80000000LL) {
       writeByte(0xD2);
       writeInteger(int32_t(value));
-    }
-#if ARDUINOJSON_USE_LONG_LONG
-    else {
+    } else {
       writeByte(0xD3);
       writeInteger(int64_t(value));
     }
-#endif
     return bytesWritten();
   }
 
@@ -161,21 +153,13 @@ class MsgPackSerializer : public VariantDataVisitor<size_t> {
       writeByte(0xCD);
       writeInteger(uint16_t(value));
     }
-#if ARDUINOJSON_USE_LONG_LONG
-    else if (value <= 0xFFFFFFFF)
-#else
-    else
-#endif
-    {
+    else if (sizeof(value) <= 4 || value <= 0xFFFFFFFF) {
       writeByte(0xCE);
       writeInteger(uint32_t(value));
-    }
-#if ARDUINOJSON_USE_LONG_LONG
-    else {
+    } else {
       writeByte(0xCF);
       writeInteger(uint64_t(value));
     }
-#endif
     return bytesWritten();
   }
 
